@@ -28,7 +28,8 @@ def edits_dropped_column(rng, prog):
         if pname == "dropped_table_column" and c["quals"] and rng.random() < 0.5:
             qual = rng.choice(c["quals"])
         ref = ["col", qual, name]
-        use = rng.choice(["filter", "derive", "sort", "select", "group_key", "aggregate"])
+        use = rng.choice(["filter", "derive", "sort", "select", "group_key", "aggregate", "case_branch", "in_bound", "join_cond", "group_body", "this_qualified", "sort_desc_expr"])
+        first = c["cols"][0][0]
         if use == "filter":
             t = {"t": "filter", "cond": ["bin", ">", ref, ["lit", 1]]}
         elif use == "derive":
@@ -37,6 +38,19 @@ def edits_dropped_column(rng, prog):
             t = {"t": "sort", "keys": [[False, ref]]}
         elif use == "select":
             t = {"t": "select", "items": [[None, ref]]}
+        elif use == "case_branch":
+            t = {"t": "derive", "items": [["zq", ["case", [[["bin", "==", ["col", None, first], ["lit", None]], ["lit", 0]], [["lit", True], ref]]]]]}
+        elif use == "in_bound":
+            t = {"t": "filter", "cond": ["in", ["lit", 3], ["lit", 1], ref]}
+        elif use == "join_cond":
+            # the joined relation has a known frame too (an opaque table would legitimately own any bare name)
+            t = {"t": "join", "src": {"k": "lit", "cols": ["zk"], "rows": [[1]]}, "alias": "zj", "side": "inner", "cond": ["bin", "==", ref, ["col", "zj", "zk"]]}
+        elif use == "group_body":
+            t = {"t": "group", "keys": [["col", None, first]], "pipe": [{"t": "derive", "items": [["zq", ["bin", "+", ref, ["lit", 1]]]]}]}
+        elif use == "this_qualified":
+            t = {"t": "derive", "items": [["zq", ["col", "this", name]]]}
+        elif use == "sort_desc_expr":
+            t = {"t": "sort", "keys": [[True, ["bin", "+", ref, ["lit", 1]]]]}
         elif use == "group_key":
             t = {"t": "group", "keys": [ref], "pipe": [{"t": "aggregate", "items": [["zn", ["agg", "count", None]]]}]}
         else:
@@ -68,6 +82,16 @@ def text_edits(rng):
     out.append(("from x = [{k = 1, b = 2}, {k = 1, b = 3}]\ngroup {x.k} (aggregate {a = sum x.b})\njoin y = [{k = 1, a = 5}] (k == y.k)\n%s\n" % use2.replace("x.k", "y.k"), "ambiguous/alias_left_aggregate/" + u2, "a"))
     out.append(("from x = [{k = 1, a = 2}]\njoin (from [{k = 1, b = 5}] | select {k2 = k, a = b}) (x.k == k2)\n%s\n" % use2, "ambiguous/alias_right_select/" + u2, "a"))
     out.append(("from x = (from t1 | select {k, b})\nderive {a = b * 2}\njoin y = (from t2 | select {k, a}) (x.k == y.k)\n%s\n" % use2, "ambiguous/alias_left_table/" + u2, "a"))
+    # a dropped column inside interpolated strings and other text-level positions (frames fully known)
+    L = "from [{a = 1, b = 2}]\nselect {a}\n"
+    for tag, tail in (("sstring", "derive {q = s\"{b} + 1\"}"), ("fstring", "derive {q = f\"x{b}\"}"), ("sstring_sort", "sort {s\"{b}\"}"), ("sstring_filter", "filter s\"{b} > 0\""),
+                      ("that_outside_join", "derive {q = that.a}"), ("alias_after_select", "join y = [{a = 1, c = 3}] (==a)\nselect {a}\nderive {q = y.c}"),
+                      ("right_via_left_name", "join y = [{a = 1, c = 3}] (==a)\nderive {q = x.c}"), ("group_inner_name_after", "group {a} (derive {inner = a + 1} | select {a})\nderive {q = inner}"),
+                      ("wildcard_of_unknown_alias", "select {zz.*}"), ("param_outside", "derive {q = p0}")):
+        src = (L if tag != "right_via_left_name" else "from x = [{a = 1, b = 2}]\n") + tail + "\n"
+        if tag == "param_outside":
+            src = "let f = p0 -> p0 + 1\n" + src
+        out.append((src, "dropped_column/text/" + tag, None))
     # (c) arguments
     n = rng.randint(1, 3)
     out.append(("let f = a b -> a + b\nfrom t1\nderive {q = (f 1 2%s)}\n" % (" 3" * n), "surplus_positional/user_func/%d" % n, None))
